@@ -152,7 +152,8 @@ Record command := mkc {
     that is left without words after redirection extraction (types.rs, fix baff407). *)
 Inductive perr := PRedir (e : rerr) | PFuel | PEmpty.
 
-Definition from_tokens (l : list token) : command + perr :=
+(** The function from the extraction loop on (the whole of it before /repo 543507e). *)
+Definition from_tokens_core (l : list token) : command + perr :=
   match from_loop (S (length l)) (l, [], []) with
   | None => inr PFuel
   | Some (l', ty, va) =>
@@ -161,6 +162,19 @@ Definition from_tokens (l : list token) : command + perr :=
       | inr e => inr (PRedir e)
       end
   end.
+
+(** /repo 543507e: [cmd <file] written without a blank.  Before the loop, an untagged word of more than
+    one character that starts with one [<] (not [<<]) is split into [<] and the rest. *)
+Definition att_lt (t : token) : bool :=
+  match t with
+  | (TNone, c :: c2 :: _) => (c =? c_lt) && negb (c2 =? c_lt)
+  | _ => false
+  end.
+Definition split_lt (t : token) : list token :=
+  if att_lt t then [(TNone, s_lt); (TNone, tl (snd t))] else [t].
+Definition split_lts (l : list token) : list token := flat_map split_lt l.
+
+Definition from_tokens (l : list token) : command + perr := from_tokens_core (split_lts l).
 
 (** * split_tokens_by_pipes *)
 Fixpoint split_pipes (l : list token) (cur : list token) (acc : list (list token))
